@@ -23,12 +23,13 @@ META = {
         "is overcome through the real grace-period path, the clock is a stub) and the statement is asserted: every append that returned is visible "
         "to everybody in order, the interrupted one is wholly present or wholly absent, no survivor call raises, cached offsets agree with a fresh "
         "reader. The takeover of a dead holder's lock by two survivors is decided by the C07 bounded model checker with a dead holder and arbitrary "
-        "timing; its satisfying schedule is replayed on the real code."
+        "timing; its satisfying schedule is replayed on the real code. The same model checker decides, with KeyboardInterrupt out of time.sleep as a "
+        "symbolic fault of a waiting worker (a worker killed by SIGINT runs its finally-blocks), that the dying waiter never removes the holder's lock."
     ),
     "assumptions": ["POSIX model: append-mode write() delivers its bytes atomically at EOF except when cut short by the crash; rename/symlink/O_EXCL atomic",
                     "unflushed user-space buffers of the dead process are lost; completed writes are durable (no reordering after power loss)"],
-    "outside": ["SQLite/RDB crash atomicity (inside the C library)", "kernel/NFS behaviours beyond the POSIX model", "workers interrupted by signals whose "
-                "handlers run (KeyboardInterrupt while waiting for the lock)"],
+    "outside": ["SQLite/RDB crash atomicity (inside the C library)", "kernel/NFS behaviours beyond the POSIX model", "KeyboardInterrupt delivered anywhere else than in "
+                "time.sleep of a worker waiting for the lock (interrupted-waiter-bmc covers that point only)"],
 }
 
 
@@ -398,6 +399,13 @@ def obligations(tier):
         obs.append(Obligation(f"takeover-bmc-{short}", None, None, CODE, custom=make_takeover_bmc(cls),
                               bounds=dict(dead_holder=1, survivors=2, macro_steps=12, timing="arbitrary"),
                               describe=f"{cls}: two survivors and a dead lock holder, all schedules and timings (BMC, replayed)"))
+    from harness.c07 import make_bmc
+    for cls in ("JournalFileSymlinkLock", "JournalFileOpenLock"):
+        short = "symlink" if "Symlink" in cls else "open"
+        obs.append(Obligation(f"interrupted-waiter-bmc-{short}", None, None, CODE, custom=make_bmc(cls, 2, 10, 1, 2, 2, interrupts=True),
+                              bounds=dict(processes=2, macro_steps=10, fault="KeyboardInterrupt (SIGINT) raised by time.sleep in the waiting worker, which then dies"),
+                              describe=f"{cls}: a worker killed by SIGINT while it waits for the lock (its finally-blocks run) does not disturb the holder: "
+                                       "no release() error, no double holder, for all schedules (BMC, replayed)"))
     obs.append(Obligation("storage-level", storage_level_body, setup, CODE, bounds=dict(acknowledged_calls=3, interrupted_calls=3, crash_points="every system call", torn_bytes=[0, 1, "n/2", "n-1", "n"]),
                           shard_depth=3, budget_s=600, classify=classify, require_reach=["crashed"],
                           describe="real JournalStorage on the file backend: acknowledged calls survive, interrupted call all-or-nothing, survivors keep working"))
